@@ -3,8 +3,33 @@ and Kani harnesses over loop-free leaf functions (full-domain symbolic inputs =>
 import json, os, subprocess, time
 from . import assemble, kani
 
+def fixed_replays(pid, repo):
+    """regression guard for repaired defects: the failing input of every finding recorded as `fixed` for this property is
+    replayed on the real code of the tree under check (binaries of /verif/replay, which exit 1 when the defect shows)"""
+    kf = json.load(open(os.path.join(assemble.VERIF, 'known_findings.json')))
+    res = []
+    env = dict(os.environ, CARGO_NET_OFFLINE='true')
+    for k in kf.get('findings', []):
+        if k.get('status') != 'fixed' or k.get('property') != pid or not k.get('replay'):
+            continue
+        binname = os.path.splitext(os.path.basename(k['replay']))[0]
+        t0 = time.time()
+        rc, out = kani.run_replay_rc(binname, [], repo, env)
+        name = "replay::%s" % binname
+        if rc is None:
+            res.append({"name": name, "backend": "replay on the real code", "status": "undecided", "detail": out, "cmd": None})
+        else:
+            res.append({"name": name, "backend": "replay on the real code", "status": "ok" if rc == 0 else "fail",
+                        "msg": "the failing input of a repaired defect fails again",
+                        "detail": "%s (%s): %s" % (k['id'], k.get('commit', ''), out[-600:]),
+                        "counterexample": {"finding": k['id'], "input": "the input built in %s" % k['replay']} if rc != 0 else None,
+                        "replay": out[-1200:] if rc != 0 else None,
+                        "cmd": "cargo run --release --offline --bin %s  (in /verif/replay, against the tree under check)" % binname,
+                        "time_ms": int((time.time() - t0) * 1000)})
+    return res
+
 def run(pid, cfg, repo, work, tier):
-    out = []
+    out = fixed_replays(pid, repo)
     for x in cfg.get('extra', []):
         if x['kind'] == 'sat_sites':
             out += sat_sites(repo, work, x)
